@@ -130,6 +130,8 @@ def main():
                 dtype = "Fuzzy"
             missing = rnd.choice([None, None, -9999, -9999.0, 0, 2.5, 1.5])
             varname = "elev" if rnd.random() < 0.93 else "nosuch"
+            if stored in ("packed", "f8be") and ri == 1 and flavour not in ("fuzzy",):
+                dtype, varname = "Integer", "elev"     # decoded float64 data read as integers: rounded to nearest, whatever the storage
             if all(fmask) and ri == 0:
                 dtype, varname = "Fuzzy", "elev"       # a layer without values has no value outside [-1, 1]
             o = run_read(wd, fname, varname, dtype, missing)
